@@ -220,3 +220,33 @@ def r18_4(rep):
             local = [c for c in callees if c.endswith("%s::visit_items" % mod)]
             rep.check(bool(local) and rec in callees, "visitor:%s:%s" % (mod, meth),
                       "processes its own items and recurses (%s)" % ", ".join(callees), v.loc(v.root))
+
+
+REORDERING = {"insert", "splice", "rotate_left", "rotate_right", "reverse", "swap", "swap_remove", "retain", "retain_mut", "drain", "remove",
+              "truncate", "clear", "dedup", "dedup_by", "dedup_by_key", "pop", "split_off", "sort", "sort_by", "sort_by_key", "sort_unstable",
+              "sort_unstable_by", "sort_unstable_by_key", "sort_by_cached_key", "select_nth_unstable", "shuffle", "fill", "fill_with"}
+
+
+@RULES.rule("R18.5", "the passes only append (merge) or stably sort (sort): nothing is inserted in front, removed or reordered otherwise", floor=3)
+def r18_5(rep):
+    """Relative order of the foreign items inside a merged block and of same-kind items must be preserved, and no item
+    may be dropped.  Breaks: `extern_block.items.splice(0..0, extern_block_items)` reverses the order of merged
+    functions; `items.dedup()` after sorting drops a duplicated `use`."""
+    prog = rep.prog
+    n = 0
+    for b in prog.bodies.values():
+        if "codegen::postprocessing::" not in b.path:
+            continue
+        is_sort = "sort_semantically" in b.path
+        for c in b.calls(lambda x: x["k"] == "MCall" and x["name"] in REORDERING):
+            rt = prog.types[c["rt"]]
+            if "syn::" not in rt and "ItemForeignMod" not in rt and "Item" not in rt:
+                continue
+            n += 1
+            allowed = is_sort and c["name"] in ("sort", "sort_by", "sort_by_key", "sort_by_cached_key")
+            rep.check(allowed, "mutator:%s@%s" % (c["name"], b.path.split("::")[-2]),
+                      "`%s` on %s: the pass may only %s" % (c["name"], rt, "stably sort" if is_sort else "append"), b.loc(c))
+        if b.path.endswith("merge_extern_blocks::visit_items"):
+            ext = [c for c in b.calls(lambda x: x["k"] == "MCall" and x["name"] in ("extend_from_slice", "extend", "append"))]
+            rep.check(bool(ext), "merge:appends", "merged foreign items are appended behind the block's own items", b.loc(b.root))
+    rep.check(n >= 1, "mutators-seen", "%d reordering-capable calls inspected" % n)
